@@ -1,5 +1,6 @@
 import Batteries.Tactic.Alias
 import GenlmModel.Proofs.Wfsa
+import GenlmModel.Proofs.Wfsa2
 /-! # C11 — automaton string weight = sum over accepting paths -/
 namespace Genlm.Props.C11
 /-- the driver's dynamic programme is the path-sum specification (ε arcs and cycles allowed) -/
@@ -8,4 +9,11 @@ alias oracle_is_path_sum := Genlm.PNtab_spec
 alias forward_correct := Genlm.forward_correct
 alias forward_correct_PN := Genlm.forward_correct_PN
 alias epsfree_paths_have_string_length := Genlm.Qk_epsfree_length
+/-- ε-removal (given the closure of the ε-graph) leaves no ε arc … -/
+alias epsremove_epsfree := Genlm.epsremove_epsfree
+/-- … and, for ε-acyclic machines, the same string weights -/
+alias epsremove_correct := Genlm.epsremove_correct_PN
+alias call_is_path_sum := Genlm.forward_epsremove
+/-- total weight as the start-weighted backward solution -/
+alias total_weight_eq := Genlm.totalWeight_eq
 end Genlm.Props.C11
